@@ -11,6 +11,8 @@ W_BASE = {'add_node': 2, 'remove_node': 2, 'link': 3, 'add_att': 2, 'remove_att'
           'set_tags': 0.3, 'set_extras': 0.3}
 
 PROFILES = {
+    'C08': dict(weights={**{k: 0 for k in W_BASE}, 'reorder': 1}, n_nodes=(2, 7), n_links=(1, 14), n_atts=(0, 0),
+                n_steps=(0, 1), fresh=True),
     'C09': dict(weights=W_BASE, n_steps=(2, 14)),
     'C11': dict(weights={**{k: 0 for k in W_BASE}, 'compromise': 6, 'undo': 5, 'add_att': 2, 'remove_att': 3,
                          'attach': 2, 'remove_node': 0.5, 'add_node': 0.5, 'link': 0.5, 'copy': 0.3},
@@ -96,6 +98,36 @@ def exhaustive_ops_C11(depth: int):
     return prelude, alphabet
 
 
+def exhaustive_C08(n, stride):
+    """Every graph on n nodes over type x (status) x {no TTC, TTC distribution} x every edge set (self-loops
+    included), analysed in list order; `stride` keeps every stride-th one (1 = all)."""
+    variants = []
+    for t in GW.TYPES:
+        sts = [(None, None)]
+        if t == 'defense': sts = [(0.0, None), (1.0, None), (0.5, None)]
+        if t in ('exist', 'notExist'): sts = [(None, True), (None, False)]
+        for d, e in sts:
+            for ttc in (None, GW.TTCS[3]):
+                variants.append((t, d, e, ttc))
+    pairs = [(p, c) for p in range(n) for c in range(n)]
+    k = 0
+    for combo in itertools.product(variants, repeat=n):
+        for mask in range(1 << len(pairs)):
+            k += 1
+            if k % stride:
+                continue
+            ops = []
+            for i, (t, d, e, ttc) in enumerate(combo):
+                ops.append(('new', {'type': t, 'name': f's{i}', 'ttc': ttc, 'asset': 'a', 'def': d, 'exist': e,
+                                    'viable': True, 'necessary': True, 'mitre': None, 'tags': [], 'extras': {}}))
+                ops.append(('add_node', i, None))
+            for j, (p, c) in enumerate(pairs):
+                if mask >> j & 1:
+                    ops.append(('link', p, c))
+            ops.append(('calc',))
+            yield ops
+
+
 def guarded_prefix(impl, prelude, seq):
     """Keep the longest prefix of seq whose operations are applicable (handles live in the graph)."""
     w = GW.World(impl)
@@ -140,9 +172,15 @@ def make_cases(pid: str, impl, tier: str, seed: int):
             if key not in seen:
                 seen.add(key)
                 histories.append(('exhaustive', ops))
+    if pid == 'C08':
+        for ops in exhaustive_C08(2, 8 if tier == 'quick' else 1):
+            histories.append(('exhaustive', ops))
     for _ in range(n_random):
         kw = {k: v for k, v in prof.items() if k != 'weights'}
-        histories.append(('random', GW.gen_history(impl, rng, prof['weights'], **kw)))
+        ops = GW.gen_history(impl, rng, prof['weights'], **kw)
+        if pid == 'C08':
+            ops = ops + [('calc',)]
+        histories.append(('random', ops))
     return histories
 
 
@@ -161,6 +199,8 @@ def load_corpus(pid):
 def nontrivial(pid, ops, outs, obs) -> bool:
     kinds = {o[0] for o in ops}
     og, on, oa = obs
+    if pid == 'C08':
+        return 'calc' in kinds and any(not (n[4] and n[5]) for n in on)
     if pid == 'C11':
         return any(a[2] for a in oa) and bool(kinds & {'undo', 'remove_att', 'attach'})
     if pid == 'C12':
@@ -195,6 +235,35 @@ def _surface(w, a):
 def _prunable(n):
     return n.type in ('or', 'and') and (not n.is_viable or not n.is_necessary)
 
+def _dist(n):
+    return bool(n.ttc and 'name' in n.ttc and n.ttc['name'] not in ['Enabled', 'Disabled'])
+
+def gfp_labels(nodes):
+    """Greatest solution of the viability / necessity equations by downward iteration from 'all true'."""
+    v = {id(n): True for n in nodes}
+    nc = {id(n): True for n in nodes}
+    def ev(n):
+        if n.type == 'exist': return bool(n.existence_status)
+        if n.type == 'notExist': return not n.existence_status
+        if n.type == 'defense': return n.defense_status != 1.0
+        if n.type == 'or': return True if not n.parents else any(v[id(p)] for p in n.parents)
+        return all(v[id(p)] for p in n.parents)
+    def en(n):
+        if n.type == 'exist': return not n.existence_status
+        if n.type == 'notExist': return bool(n.existence_status)
+        if n.type == 'defense': return n.defense_status != 0.0
+        c = [nc[id(p)] or _dist(p) for p in n.parents]
+        if n.type == 'or': return all(c)
+        return True if not c else any(c)
+    changed = True
+    while changed:
+        changed = False
+        for n in nodes:
+            a, b = ev(n), en(n)
+            if v[id(n)] and not a: v[id(n)] = False; changed = True
+            if nc[id(n)] and not b: nc[id(n)] = False; changed = True
+    return v, nc
+
 HANDLE_ARGS = {'add_node': [1], 'remove_node': [1], 'link': [1, 2], 'compromise': [2], 'undo': [2],
                'set_flags': [1], 'set_ttc': [1], 'set_tags': [1], 'set_extras': [1]}
 
@@ -224,13 +293,20 @@ def run_with_predicates(pid, impl, ops, per_case_timeout=10):
                     pre = w.obs()
             oc, ret = w.apply(op)
             outs.append([oc, ret])
+            if pid == 'C08' and k == 'calc' and oc == 0:
+                v, nc = gfp_labels(w.graph.nodes)
+                for n in w.graph.nodes:
+                    if bool(n.is_viable) != v[id(n)]:
+                        viol.append((i, f'viability of a node of type {n.type} is not the greatest fixed point'))
+                    if bool(n.is_necessary) != nc[id(n)]:
+                        viol.append((i, f'necessity of a node of type {n.type} is not the greatest fixed point'))
             if pid == 'C09':
                 for m in wf_violations(w):
                     viol.append((i, m))
             elif pid == 'C11':
                 for m in mirror_violations(w):
                     viol.append((i, m))
-            elif pid == 'C12' and oc == 0:
+            elif pid == 'C12' and oc == 0 and k.startswith('q_'):
                 if w.obs() != pre:
                     viol.append((i, f'{k} changed the graph'))
                 if k == 'q_trav' and ret != _trav(w.nodes[op[2]], w.atts[op[1]]):
@@ -358,6 +434,7 @@ def check(pid: str, tier: str, seed: int):
                             'theorems are about the Gallina model; the model is tied to the code by this run only']}
 
 RULES = {
+    'C08': 'every 2-node graph over type x status x {no TTC, TTC distribution} x every edge set incl. self-loops (every 8th in quick, all in thorough) + seeded random fresh-labelled graphs of 2-7 nodes with a random reordering of the node list before the analysis; non-trivial = some label ends up false; distinct by final observation',
     'C09': 'seeded random guarded histories over all graph operations; non-trivial = final graph non-empty and >3 kinds of operation; distinct by (outcomes, final observation)',
     'C11': 'all sequences of 2 (quick) / 3 (thorough) operations over 15 operations on a 3-node 2-attacker graph + seeded random histories; non-trivial = some attacker has reached steps and the history contains undo / remove_attacker / attach',
     'C12': 'seeded random labelled graphs with 1-3 attackers and interleaved compromises / queries; non-trivial = some query returned a non-empty list',
